@@ -366,7 +366,11 @@ class Unsigned(BitVector):
 
     @_intrinsic
     def _cohdl_rrem_(self, lhs: int | Integer) -> Unsigned:
-        if isinstance(lhs, (int, Integer)):
+        if isinstance(lhs, Unsigned):
+            result_width = self.width
+            lhs = lhs.to_int()
+            rhs = self.to_int()
+        elif isinstance(lhs, (int, Integer)):
             result_width = self.width
             lhs = int(lhs)
             rhs = self.to_int()
